@@ -144,6 +144,8 @@ type vfQrRun struct {
 	lendTr   []*quic.Transport
 	remotes  []func()
 	routeAsk int
+	stepWhat string // how the step just executed ended a use ("" if it ended none)
+	cause    string // confirmation run: stepWhat of the deviating step - names the class of what the monitors then see
 	newest   [2]any // the user made by the step just executed ("ln"/"dial"/"share", id), nil if it made none
 	passive  bool   // confirmation mode, after the deviating step: the model no longer describes the real state
 	noRepair bool   // confirmation mode, at the deviating step: do not put the count right
@@ -487,6 +489,7 @@ func (r *vfQrRun) unuse(sock int, what string) {
 		return
 	}
 	l := r.led[sock-1]
+	r.stepWhat = what
 	l.users--
 	l.last = what
 	if l.users == 0 {
@@ -500,6 +503,7 @@ func (r *vfQrRun) touch(sock int, what string) {
 		return
 	}
 	l := r.led[sock-1]
+	r.stepWhat = what
 	l.last = what
 	if l.users == 0 {
 		l.idleSince = r.k
@@ -632,7 +636,11 @@ func (r *vfQrRun) monitors(gcInstant bool, opName string) {
 		if r.conf.Reuse {
 			// Q4: a socket without users for more than MaxUnused does not survive a GC instant
 			if gcInstant && !closed && !l.fuzzy && l.users == 0 && l.idleSince >= 0 && r.k-l.idleSince > r.conf.MaxUnused {
-				r.v("socket-not-released:"+l.last, fmt.Sprintf("socket %d (%s) has had no user since tick %d and survived the GC instant before tick %d (last use ended by: %s)",
+				why := l.last
+				if r.passive && r.cause != "" {
+					why = r.cause // the call whose count went wrong, not the one that happened to come last
+				}
+				r.v("socket-not-released:"+why, fmt.Sprintf("socket %d (%s) has had no user since tick %d and survived the GC instant before tick %d (last use ended by: %s)",
 					id, l.s.laddr, l.idleSince, r.k, l.last), "closed", "open")
 				l.idleSince = -1 // report once
 			}
@@ -822,6 +830,7 @@ func (r *vfQrRun) exec(op vfh.Op) {
 	gcInstant := false
 	r.tie = false
 	r.newest = [2]any{}
+	r.stepWhat = ""
 	switch name {
 	case "listen":
 		nBefore := len(r.led)
@@ -980,7 +989,9 @@ func (r *vfQrRun) exec(op vfh.Op) {
 		r.disarm()
 		r.n.drop.Store(false)
 		synctest.Wait()
-		d.tr, d.conn = res.tr, res.conn
+		if res.err == nil {
+			d.tr, d.conn = res.tr, res.conn
+		}
 		r.tieHeld = op.B("ok")
 		if r.tie && r.otherChoice(op.I("sock")) {
 			r.retry = true
@@ -1277,6 +1288,9 @@ func vfQrRunWalk(t *testing.T, conf vfQrConf, cert tls.Certificate, w vfh.Walk, 
 			}
 			if i == passiveFrom {
 				kept = r.newest
+				if r.cause = r.stepWhat; r.cause == "" {
+					r.cause = "after-" + step.Op.Name()
+				}
 			}
 			var st vfQrSt
 			if err := json.Unmarshal(step.State, &st); err != nil {
